@@ -228,7 +228,21 @@ fn main() {
     check.assume("a deadlock is a stable state: no answer for 4 s wall and zero CPU ticks over two further samples 1 s apart");
     check.assume("interleavings of the multi-threaded runs are the OS scheduler's; absence of data races is not shown");
 
-    let spec = Spec { cpu_secs: 120, wall_grace_secs: 4, rlimit_as: 0, env: vec![("RUST_BACKTRACE".into(), "0".into())], ..Spec::new("c19") };
+    // one scratch root per run: workers that die (abort, guard-page hit, deadlock) cannot remove their
+    // per-history directories, the parent removes the root at the end
+    let run_dir = engine::scratch("c19run");
+    let run_root = run_dir.path().to_path_buf();
+    let spec = Spec {
+        cpu_secs: 120,
+        wall_grace_secs: 4,
+        rlimit_as: 0,
+        env: vec![("RUST_BACKTRACE".into(), "0".into()), ("VERIF_SCRATCH".into(), run_root.to_string_lossy().to_string())],
+        ..Spec::new("c19")
+    };
+    let finish = |check: &Check| -> ! {
+        let _ = std::fs::remove_dir_all(&run_root);
+        check.finish()
+    };
 
     if let Some(p) = check.replay.clone() {
         let v: Value = serde_json::from_str(&std::fs::read_to_string(&p).expect("replay")).expect("json");
@@ -239,11 +253,11 @@ fn main() {
         if let Err(f) = j.result {
             check.fail(&f, case);
         }
-        check.finish();
+        finish(&check);
     }
     if let Err(e) = Storm::load(&ffi::lib_path()) {
         check.inconclusive(&format!("cannot load libstorm: {e}"));
-        check.finish();
+        finish(&check);
     }
 
     // ---------------------------------------------------------------- cases
@@ -383,5 +397,5 @@ fn main() {
     if check.counter("mt_reads_checked") == 0 || check.counter("mt_ok_calls") * 4 < check.counter("mt_calls") {
         check.inconclusive("multi-threaded runs are vacuous (no checked read, or fewer than a quarter of the calls succeeded)");
     }
-    check.finish();
+    finish(&check);
 }
